@@ -73,6 +73,77 @@ CHECKS = {
                      "executed for every answer sequence within the bound; validity and per-flag-set confinement "
                      "clauses of the statement are asserted on every resulting corpus.",
                 note="Generic answers only; sub-precision cuts only under the bound, '+1 unit' not asserted there."),
+    "C03": dict(engine="E3 universe x all alignments + definition oracle", design="§4 C03",
+                technique="explicit enumeration of bounded continua x all their alignments x slot permutations x "
+                          "observation points against the float64 definition",
+                text="Every enumerated alignment (all partitions of small continua plus the library's best/soft/fast "
+                     "ones), in permuted slot orders, with and without an attached continuum, is evaluated through "
+                     "every observation point and compared with the definition; values must agree with each other.",
+                note="Known finding unitary-compute-disorder-scale matched by signature (value = definition * n/k)."),
+    "C04": dict(engine="E3 unit pairs x dissimilarity configurations", design="§4 C04",
+                technique="explicit enumeration of dissimilarity configurations (classes, delta_empty, alpha, beta, "
+                          "label orders, 1..300 categories) x unit pairs; three-way comparison formula / d() / compiled",
+                text="For every configuration and unit pair the documented formula, d() and the compiled form agree; "
+                     "symmetry, non-negativity, zero on identical units; categorical values depend only on the names.",
+                note="Levenshtein normalisation and ordinal normaliser are not pinned (only consistency / "
+                     "proportionality)."),
+    "C06": dict(engine="E1 thread-schedule explorer (controlled executor) + free-running configurations",
+                design="§4 C06",
+                technique="stateless exploration of all thread schedules of the real compute_gamma / gamma_cat / "
+                          "gamma_k under a controlled executor (deviation-bounded, W=1..3), happens-before monitor, "
+                          "plus configuration enumeration in free-running subprocesses",
+                text="Every schedule within the deviation bound is executed and must give results bit-identical to the "
+                     "sequential baseline, with no unordered RNG / shared-object access; free-running runs under 5 "
+                     "hash seeds x 3 cpu counts x 2 repetitions must equal the baseline too.",
+                note="Cooperative scheduler: scheduling points at synchronisation and visible operations only."),
+    "C09": dict(engine="E3 universe + families, metamorphic relations", design="§4 C09",
+                technique="explicit enumeration of bounded inputs and structured families (up to 2x60, 3x15, 5x5) x "
+                          "transformation menu; each relation compares two runs of the real optimiser",
+                text="Annotator permutations/renamings, translations, scalings, category renamings and delta_empty "
+                     "factors are applied to every enumerated input; best-alignment disorder (and gamma for the "
+                     "delta_empty relation, same seed, both samplers) must be preserved.",
+                note="Dyadic grids keep transformed inputs exact in float32; 1e-4 relative tolerance."),
+    "C10": dict(engine="E3 universe + lasso monitor", design="§4 C10",
+                technique="explicit enumeration of a bounded universe x window sizes with cycle (lasso) detection on the "
+                          "real fast-alignment loop, DP optimum oracle",
+                text="Fast alignment of every enumerated continuum and window size: termination decided by revisited-"
+                     "state detection, result validated as partition, reported disorder recomputed, compared with "
+                     "the exact optimum; fast-mode gamma's choice of algorithm observed by spies.",
+                note="Loop body assumed a deterministic function of the working copy."),
+    "C13": dict(engine="E2 explicit-state BFS over operation histories", design="§4 C13",
+                technique="breadth-first search over operation histories of the real Continuum (depth 4 / 5), state "
+                          "deduplication by (model, observable snapshot), reference model compared after every step",
+                text="Every history over the stated alphabet up to the depth is replayed on a fresh real object; after "
+                     "each step annotators, units, order, counts, categories, bounds, copies, merges, rejections and "
+                     "independence of derived continua are compared with a set-per-annotator model; == over all pairs "
+                     "of ~280 states.",
+                note="Alphabet: 3 annotators, 3+2 segments, 3 labels; histories beyond the depth are not reached."),
+    "C14": dict(engine="E2 entry point x input x mutation enumeration", design="§4 C14",
+                technique="explicit enumeration of every public entry point x input x later mutation with deep snapshot "
+                          "comparison (depth-2 histories)",
+                text="Each computation entry point is applied to each input; inputs and dissimilarities are "
+                     "snapshotted before/after; every returned continuum is then mutated in four ways and the input "
+                     "and sibling results must be unchanged (and vice versa).",
+                note="Snapshots cover annotators, units, categories, bounds, window size, all dissimilarity attributes."),
+    "C17": dict(engine="E3 universe x candidate alignments", design="§4 C17",
+                technique="explicit enumeration of small continua x all multisets of candidate unitary alignments "
+                          "(incl. re-slotted ones) x orders x check entry points, occurrence-count oracle",
+                text="check(), check(continuum) and construction with check_validity for both alignment classes are "
+                     "evaluated on every candidate alignment up to units+1 unitary alignments in several orders.",
+                note="Foreign duplicated slots and soft checks with foreign slots are unspecified."),
+    "C18": dict(engine="E3 file contents", design="§4 C18",
+                technique="explicit enumeration of file contents from finite alphabets (awkward texts x delimiters x "
+                          "times; RTTM turns; TextGrid / ELAN tiers x selections x label modes)",
+                text="CSV round trips for every awkward annotator/label text and delimiter; generated RTTM, TextGrid "
+                     "and ELAN files under every tier selection and label mode compared with the generator's record.",
+                note="TextGrid/ELAN records are re-read with the third-party readers; only the adapter is judged."),
+    "C20": dict(engine="deviation-bounded option lattice", design="§4 C20",
+                technique="deviation-bounded enumeration of the CLI option lattice (<= 2 / 3 options off the base point "
+                          "+ full sub-product), in-process CLI run vs API run, spies on the gamma computation",
+                text="Every option set within the bound is run through the real CLI entry point and through the API "
+                     "with equivalent arguments; printed / CSV / JSON numbers must equal the API's and every option "
+                     "must be visible in the gamma computation.",
+                note="Serial executor in both runs; option combinations beyond the bound are not explored."),
 }
 
 PENDING_REASON = "check not built yet in this session (planned, see DESIGN.md section 4); not claimed until it runs"
@@ -111,11 +182,18 @@ def main():
         "engines": [
             {"name": "E1 stateless choice-point explorer (deviation-bounded) + RNG seam",
              "path": "mc/explorer.py, mc/rngseam.py, mc/e1.py",
-             "serves_properties": [p for p in ("C05", "C15", "C16", "C19") if p in CHECKS],
+             "serves_properties": [p for p in ("C05", "C06", "C15", "C16", "C19") if p in CHECKS],
              "kind_free_text": "exhaustive enumeration of answer sequences of np.random / a scripted sampler on the "
                                "real code, replay-twice determinism check"},
+            {"name": "E1 thread-schedule explorer: controlled executor + happens-before monitor", "path": "mc/sched.py",
+             "serves_properties": ["C06"],
+             "kind_free_text": "cooperative baton scheduler over real threads, FIFO worker model, controlled "
+                               "as_completed/wait, vector-clock race monitor"},
+            {"name": "E2 explicit-state history search", "path": "mc/props/c13.py, mc/props/c14.py",
+             "serves_properties": ["C13", "C14"],
+             "kind_free_text": "BFS over operation histories of the real Continuum with a reference model"},
             {"name": "E3 bounded input universes + reference oracles", "path": "mc/universe.py, mc/oracles.py",
-             "serves_properties": [p for p in props if p in CHECKS and p not in ("C05", "C15", "C16", "C19")],
+             "serves_properties": [p for p in props if p in CHECKS and p not in ("C05", "C06", "C13", "C14", "C15", "C16", "C19")],
              "kind_free_text": "explicit-state enumeration of bounded input spaces against float64 reference models"},
         ],
         "checks": checks,
